@@ -3,8 +3,9 @@
 set -e
 S=$1
 export GOTOOLCHAIN=local GOFLAGS=-mod=mod GOPROXY=off GOSUMDB=off PATH=/opt/veriftools/go1.26.8/bin:$PATH
-cd /verif
+V=$(cd "$(dirname "$0")" && pwd)
+cd $V
 mkdir -p $S
 go build -o $S/instr ./instr
-$S/instr -os -add /verif/hooks/zz_verif_hooks.go -out $S/inst -overlay $S/overlay.json ${VERIF_REPO:-/repo}=github.com/danthegoodman1/bloomsearch=/repo /verif/hstore=verif/hstore /verif/scen=verif/scen
+$S/instr -os -add $V/hooks/zz_verif_hooks.go -out $S/inst -overlay $S/overlay.json ${VERIF_REPO:-/repo}=github.com/danthegoodman1/bloomsearch=/repo $V/hstore=verif/hstore $V/scen=verif/scen
 go build -overlay $S/overlay.json -tags verif,verif_sched -o $S/hsched ./cmd/hsched
